@@ -65,6 +65,41 @@ theorem stopTask_tasks_apply (s : TM) (id id' : String) :
     rw [stopTask_tasks h]
     simp [upd]
 
+/-- A start that fails after `newFork` (and cleans up) = a start followed by a stop, when the id was not executing. -/
+theorem startTaskFail_eq {s : TM} {d : TaskDef} (hn : s.tasks d.id = none) :
+    startTaskFail s d = stopTask (startTask s d) d.id := by
+  by_cases hd : d.dbrps = []
+  · rw [startTask_nodbrp hd, stopTask_idle hn]; simp [startTaskFail, hd]
+  · have hde : d.dbrps.isEmpty = false := by simpa using hd
+    have hfun : upd (upd s.tasks d.id (some (⟨s.nextEdge, d⟩ : Edge))) d.id none = s.tasks := by
+      funext x
+      by_cases hx : x = d.id
+      · simp [upd, hx, hn]
+      · simp [upd, hx]
+    simp [startTaskFail, startTask, stopTask, hde, newFork, upd, delFork]
+    simpa [upd] using hfun.symm
+
+theorem startTaskFail_tasks (s : TM) (d : TaskDef) : (startTaskFail s d).tasks = s.tasks := by
+  unfold startTaskFail
+  by_cases h : d.dbrps.isEmpty = true <;> simp [h, newFork, delFork]
+
+theorem startTaskFail_log (s : TM) (d : TaskDef) : (startTaskFail s d).log = s.log := by
+  unfold startTaskFail
+  by_cases h : d.dbrps.isEmpty = true <;> simp [h, newFork, delFork]
+
+theorem startTaskFail_defaultRP (s : TM) (d : TaskDef) : (startTaskFail s d).defaultRP = s.defaultRP := by
+  unfold startTaskFail
+  by_cases h : d.dbrps.isEmpty = true <;> simp [h, newFork, delFork]
+
+theorem Inv.startTaskFail {s : TM} (hi : Inv s) {d : TaskDef} (hn : s.tasks d.id = none) : Inv (startTaskFail s d) := by
+  rw [startTaskFail_eq hn]; exact (hi.startTask hn).stopTask d.id
+
+theorem not_running {s : TM} {run : List String} (hrun : ∀ id, id ∈ run ↔ (s.tasks id).isSome) {id : String}
+    (h : ¬ id ∈ run) : s.tasks id = none := by
+  cases hx : s.tasks id with
+  | none => rfl
+  | some e => exact absurd ((hrun id).mpr (by simp [hx])) h
+
 /-- **Simulation.** From any state satisfying the invariant, running a well-formed continuation appends to the sink under
 from-node #`i` of task `t` exactly what the history spec prescribes. -/
 theorem sim (drp t : String) (i : Nat) (ops : List Op) :
@@ -109,6 +144,17 @@ theorem sim (drp t : String) (i : Nat) (ops : List Op) :
         · subst hid; simp [upd, hd]
         · have : ¬ t = d.id := fun h => hid h.symm
           simp [upd, hid, this]
+    | startfail d =>
+      simp only [step, stepWith]
+      simp only [wfFrom, Bool.and_eq_true, Bool.not_eq_true', List.contains_eq_mem, decide_eq_false_iff_not] at hwf
+      have hn := not_running hrun hwf.1
+      have hrun' : ∀ id, id ∈ run ↔ ((startTaskFail s d).tasks id).isSome := by
+        intro id; rw [startTaskFail_tasks]; exact hrun id
+      rw [ih _ _ (hi.startTaskFail hn) ((startTaskFail_defaultRP s d).trans hrp) hrun' hwf.2]
+      have hdel : (startTaskFail s d).delivered t i = s.delivered t i := by
+        simp [delivered_eq, startTaskFail_log]
+      rw [hdel, startTaskFail_tasks]
+      simp only [writeEvents, enabledAfter]
     | stop id =>
       simp only [step, stepWith]
       have hwf' : wfFrom (run.filter (· != id)) rest = true := by simpa [wfFrom] using hwf
@@ -197,6 +243,11 @@ theorem inv_fold (ops : List Op) :
         by_cases hid : id = d.id
         · simp [hid, upd]
         · simp [hid, upd, hrun id]
+    | startfail d =>
+      simp only [step, stepWith]
+      simp only [wfFrom, Bool.and_eq_true, Bool.not_eq_true', List.contains_eq_mem, decide_eq_false_iff_not] at hwf
+      refine ih _ run (hi.startTaskFail (not_running hrun hwf.1)) ?_ hwf.2
+      intro id; rw [startTaskFail_tasks]; exact hrun id
     | stop id =>
       simp only [step, stepWith]
       have hwf' : wfFrom (run.filter (· != id)) rest = true := by simpa [wfFrom] using hwf
@@ -245,6 +296,10 @@ theorem writeEvents_filter_relevant (drp t : String) (ops : List Op) :
       by_cases h : d.id = t
       · simp [relevant, h, writeEvents, ih]
       · simp [relevant, h, writeEvents, enabledAfter, ih]
+    | startfail d =>
+      by_cases h : d.id = t
+      · simp [relevant, h, writeEvents, enabledAfter, ih]
+      · simp [relevant, h, writeEvents, enabledAfter, ih]
     | stop id =>
       by_cases h : id = t
       · simp [relevant, h, writeEvents, ih]
@@ -265,6 +320,7 @@ theorem writeEvents_ids (drp t : String) (ops : List Op) :
     intro cur
     cases op with
     | start d => simp [writeEvents, writtenIds, ih]
+    | startfail d => simp [writeEvents, writtenIds, ih]
     | stop id => simp [writeEvents, writtenIds, ih]
     | delete id => simp [writeEvents, writtenIds, ih]
     | write db rp pts => simp [writeEvents, writtenIds, ih, List.map_map, Function.comp_def]
